@@ -65,9 +65,15 @@ Qed.
 Lemma quote_body_step : forall f s, quote_body (S f) s =
   match rune_at s with
   | None => Ok []
-  | Some (r, n) => match quote_body f (dropN n s) with Ok rest => Ok (quote_rune r ++ rest) | Err => Err | OutOfFuel => OutOfFuel end
+  | Some (r, n) => match quote_body f (dropN n s) with Ok rest => Ok (quote_piece s r n ++ rest) | Err => Err | OutOfFuel => OutOfFuel end
   end.
 Proof. reflexivity. Qed.
+
+(* the piece written for a decoded character is its quoted form; only a byte that does not decode is copied *)
+Lemma quote_piece_ascii : forall c s, c < 128 -> quote_piece (c :: s) c 1 = quote_rune c.
+Proof. intros c s H. unfold quote_piece. assert (c =? 65533 = false) by (apply N.eqb_neq; lia). rewrite H0. reflexivity. Qed.
+Lemma quote_piece_multi : forall s r n, 1 < n -> quote_piece s r n = quote_rune r.
+Proof. intros s r n H. unfold quote_piece. assert (n =? 1 = false) by (apply N.eqb_neq; lia). rewrite H0, andb_false_r. reflexivity. Qed.
 
 Lemma quote_body_ascii : forall s, (forall c, In c s -> c < 128) ->
   exists b, quote_body (S (length s)) s = Ok b /\
@@ -80,7 +86,7 @@ Proof.
     assert (Hc : c < 128) by (apply H; left; reflexivity).
     exists (quote_rune c ++ b). split.
     + cbn [length]. rewrite (quote_body_step (S (length s)) (c :: s)). rewrite (rune_at_ascii c s Hc).
-      change (dropN 1 (c :: s)) with s. rewrite Hb. reflexivity.
+      change (dropN 1 (c :: s)) with s. rewrite Hb, (quote_piece_ascii c s Hc). reflexivity.
     + intros f rest pos Hf. destruct f; [simpl in Hf; lia|]. rewrite <- app_assoc.
       rewrite (read_quote_rune c Hc). rewrite (Hr f rest _ ltac:(simpl in Hf; lia)). unfold lift.
       f_equal. f_equal. unfold nlen. rewrite app_length. lia.
@@ -107,12 +113,12 @@ Proof.
   change (dropN 1 (34 :: (b ++ [34]) ++ rest)) with ((b ++ [34]) ++ rest).
   assert (NB : starts_with [34; 34] ((b ++ [34]) ++ rest) = false).
   { destruct s as [|c s].
-    - cbn [length quote_body] in Hb. inversion Hb; subst b. cbn [app starts_with].
+    - change (quote_body (S (length (@nil N))) []) with (@Ok bytes []) in Hb. inversion Hb; subst b. cbn [app starts_with].
       destruct rest as [|x r]; [reflexivity|]. destruct (34 =? x) eqn:E; [|rewrite andb_false_r; reflexivity].
       apply N.eqb_eq in E. subst x. destruct Hne as [Hn|Hn]; [contradiction Hn; reflexivity|]. exfalso. apply (Hn r). reflexivity.
     - cbn [length] in Hb. rewrite quote_body_step in Hb. assert (Hc : c < 128) by (apply H; left; reflexivity).
       rewrite (rune_at_ascii c s Hc) in Hb. destruct (quote_body (S (length s)) (dropN 1 (c :: s))) as [b'| |]; try discriminate.
-      inversion Hb; subst b. clear Hb Hr.
+      rewrite (quote_piece_ascii c s Hc) in Hb. inversion Hb; subst b. clear Hb Hr.
       (* the quoted form of a character never starts with two double quotes *)
       assert (Q : exists x y, quote_rune c = x :: y /\ x <> 34 \/ exists y, quote_rune c = [92; 34] ++ y).
       { unfold quote_rune.
@@ -141,7 +147,7 @@ Proof.
     clear - Hb H. revert b Hb. induction s as [|c s IH]; intros b Hb; [simpl; lia|].
     cbn [length] in Hb. rewrite quote_body_step in Hb. assert (Hc : c < 128) by (apply H; left; reflexivity).
     rewrite (rune_at_ascii c s Hc) in Hb. change (dropN 1 (c :: s)) with s in Hb.
-    destruct (quote_body (S (length s)) s) as [b'| |] eqn:E; try discriminate. inversion Hb; subst b.
+    destruct (quote_body (S (length s)) s) as [b'| |] eqn:E; try discriminate. rewrite (quote_piece_ascii c s Hc) in Hb. inversion Hb; subst b.
     specialize (IH (fun x Hx => H x (or_intror Hx)) b' eq_refl). rewrite app_length. cbn [length].
     assert (1 <= length (quote_rune c))%nat; [|unfold bytes, byte in *; lia].
     unfold quote_rune. repeat (match goal with |- context [if ?X then _ else _] => destruct X end; try (simpl; lia)).
